@@ -158,6 +158,8 @@ func (p *Program) extraDecls(used map[string]bool, allOps map[string]bool) strin
 		el := op[3:]
 		fmt.Fprintf(&sb, "(declare-fun %s ((Array Int %s) Int Int) %s)\n", op, el, el)
 		fmt.Fprintf(&sb, "(assert (forall ((A (Array Int %s)) (o Int) (i Int)) (! (= (%s A o i) (select A (+ o i))) :pattern ((%s A o i)))))\n", el, op, op)
+		// read-over-write at the level of slice views: keeps element reads of the updated row connected to reads of the old row
+		fmt.Fprintf(&sb, "(assert (forall ((A (Array Int %s)) (j Int) (v %s) (o Int) (i Int)) (! (= (%s (store A j v) o i) (ite (= (+ o i) j) v (%s A o i))) :pattern ((%s (store A j v) o i)))))\n", el, el, op, op, op)
 	}
 	// pure function symbols in declaration order
 	for _, name := range TB.funOrd {
@@ -250,10 +252,116 @@ type Query struct {
 }
 
 func (p *Program) buildQuery(o *Obligation, unfoldDepth int) string {
+	return p.buildQueryOpt(o, unfoldDepth, false)
+}
+
+// hasQuant reports whether t contains a quantifier
+func hasQuant(t *Term, memo map[*Term]bool) bool {
+	if v, ok := memo[t]; ok {
+		return v
+	}
+	r := t.Op == "forall" || t.Op == "exists"
+	if !r {
+		for _, a := range t.Args {
+			if hasQuant(a, memo) {
+				r = true
+				break
+			}
+		}
+	}
+	memo[t] = r
+	return r
+}
+
+// heapSyms: the array-sorted constants and spec-function symbols of a term
+func heapSyms(t *Term, memo map[*Term]map[string]bool) map[string]bool {
+	if m, ok := memo[t]; ok {
+		return m
+	}
+	m := map[string]bool{}
+	seen := map[*Term]bool{}
+	collect(t, seen, func(x *Term) {
+		if x.Op == "var" && strings.HasPrefix(x.Sort.Name, "(Array") {
+			m[x.Name] = true
+		} else if _, ok := TB.funs[x.Op]; ok {
+			m[x.Op] = true
+		}
+	})
+	memo[t] = m
+	return m
+}
+
+// relevantHyps keeps every ground hypothesis and those quantified hypotheses
+// that (transitively, through other kept quantified hypotheses) share a heap
+// array or spec-function symbol with the goal. Dropping hypotheses is sound;
+// the full query is tried when the reduced one is not decided.
+func relevantHyps(hyps []*Term, goal *Term) []*Term {
+	qm := map[*Term]bool{}
+	sm := map[*Term]map[string]bool{}
+	rel := map[string]bool{}
+	for k := range heapSyms(goal, sm) {
+		rel[k] = true
+	}
+	keep := make([]bool, len(hyps))
+	for i, h := range hyps {
+		if !hasQuant(h, qm) {
+			keep[i] = true
+		}
+	}
+	// ground equalities between array constants link heap versions
+	for changed := true; changed; {
+		changed = false
+		for i, h := range hyps {
+			syms := heapSyms(h, sm)
+			if keep[i] && hasQuant(h, qm) {
+				continue
+			}
+			inter := false
+			for k := range syms {
+				if rel[k] {
+					inter = true
+					break
+				}
+			}
+			if !inter {
+				continue
+			}
+			if keep[i] {
+				// ground hypothesis touching a relevant array: only array-to-array links matter
+				if h.Op == "=" && len(h.Args) == 2 && strings.HasPrefix(h.Args[0].Sort.Name, "(Array") {
+					for k := range syms {
+						if !rel[k] {
+							rel[k] = true
+							changed = true
+						}
+					}
+				}
+				continue
+			}
+			keep[i] = true
+			changed = true
+			for k := range syms {
+				rel[k] = true
+			}
+		}
+	}
+	var out []*Term
+	for i, h := range hyps {
+		if keep[i] {
+			out = append(out, h)
+		}
+	}
+	return out
+}
+
+func (p *Program) buildQueryOpt(o *Obligation, unfoldDepth int, filter bool) string {
 	var asserts []*Term
 	asserts = append(asserts, o.Hyps...)
 	asserts = append(asserts, p.globalAxioms()...)
 	asserts = append(asserts, flattenAnd(o.PC)...)
+	if filter {
+		asserts = relevantHyps(asserts, o.Goal)
+	}
 	if o.ExpectSat {
 		asserts = append(asserts, o.Goal)
 	} else {
@@ -273,16 +381,11 @@ func (p *Program) buildQuery(o *Obligation, unfoldDepth int) string {
 			})
 		}
 		sort.Slice(hv, func(i, j int) bool { return hv[i].id < hv[j].id })
-		amax := Var("alloc$max", SInt)
 		for _, v := range hv {
 			info := p.heapVars[v]
 			if inv := p.heapInv(info.name, v, info.alloc); inv != True {
 				asserts = append(asserts, inv)
-				asserts = append(asserts, Le(info.alloc, amax))
 			}
-		}
-		if o.Alloc != nil {
-			asserts = append(asserts, Le(o.Alloc, amax))
 		}
 	}
 	defs := p.unfoldDefs(asserts, unfoldDepth)
@@ -292,6 +395,20 @@ func (p *Program) buildQuery(o *Obligation, unfoldDepth int) string {
 	seen := map[*Term]bool{}
 	for _, a := range asserts {
 		collect(a, seen, func(t *Term) { allOps[t.Op] = true })
+	}
+	for round := 0; round < 3; round++ {
+		// opaque spec functions may mention further opaque functions
+		n := 0
+		for _, ax := range p.opaqueAxioms(allOps) {
+			if !hasTerm(asserts, ax) {
+				asserts = append(asserts, ax)
+				collect(ax, seen, func(t *Term) { allOps[t.Op] = true })
+				n++
+			}
+		}
+		if n == 0 {
+			break
+		}
 	}
 	txt := Script(asserts, basePrelude, func(used map[string]bool) string { return p.extraDecls(used, allOps) })
 	return txt + "(check-sat)\n"
@@ -386,6 +503,7 @@ func runSolver(ctx context.Context, key, file string, timeoutS int) solveResult 
 
 type SolveConfig struct {
 	workdir   string
+	t0        int // reduced-hypothesis attempt
 	t1, t2    int
 	allAgree  bool // thorough: run all solvers and compare
 	keepFiles bool
@@ -436,6 +554,12 @@ func dischargeAll(p *Program, obls []*Obligation, cfg *SolveConfig) {
 			o.Detail = err.Error()
 			continue
 		}
+		if !o.ExpectSat {
+			qf := p.buildQueryOpt(o, 2, true)
+			if qf != q {
+				os.WriteFile(file+".rel", []byte("; "+o.Name+" (relevant hypotheses only)\n"+qf), 0o644)
+			}
+		}
 		wg.Add(1)
 		sem <- struct{}{}
 		go func(o *Obligation, file string) {
@@ -482,6 +606,35 @@ func solveFile(o *Obligation, file string, cfg *SolveConfig) {
 			}
 		}
 		return false
+	}
+	if !o.ExpectSat {
+		if _, err := os.Stat(file + ".rel"); err == nil {
+			// first attempt: reduced hypothesis set (an unsat answer is sound; anything else is ignored)
+			ch := make(chan solveResult, 2)
+			cctx, cancel := context.WithCancel(ctx)
+			for _, k := range []string{"z3", "z3new"} {
+				go func(k string) { ch <- runSolver(cctx, k, file+".rel", cfg.t0) }(k)
+			}
+			var win *solveResult
+			for i := 0; i < 2; i++ {
+				r := <-ch
+				if r.verdict == "unsat" && win == nil {
+					rr := r
+					win = &rr
+					cancel()
+				}
+			}
+			cancel()
+			if win != nil && !cfg.allAgree {
+				record(*win)
+				o.Verdict, o.Solver, o.Secs = "unsat", win.solver, win.secs
+				o.Detail = fmt.Sprintf("%s=unsat(%.2fs) on the reduced hypothesis set %s.rel", win.solver, win.secs, file)
+				tally.Lock()
+				tally.bySolver[o.Solver]++
+				tally.Unlock()
+				return
+			}
+		}
 	}
 	if o.ExpectSat {
 		// vacuity guard: only a definite unsat is a failure; do not spend the long timeout on it
